@@ -3,6 +3,7 @@ package main
 import (
 	"context"
 	"fmt"
+	"math"
 
 	"github.com/smart-core-os/sc-api/go/traits"
 	"github.com/smart-core-os/sc-golang/pkg/trait/modepb"
@@ -41,7 +42,12 @@ func modeScenario(s *hx.Seq) {
 		for _, md := range cfg.modes.Modes {
 			n := len(md.Values)
 			for start := 0; start < n; start++ {
-				for step := int32(-4); step <= 4; step++ {
+				// ... however far: a step is any int32, wrapping is arithmetic modulo the number of values
+				steps := []int32{-1000, 1000, math.MaxInt32, math.MaxInt32 - 1, math.MinInt32, math.MinInt32 + 1}
+				for st := int32(-4); st <= 4; st++ {
+					steps = append(steps, st)
+				}
+				for _, step := range steps {
 					s.Eval(1)
 					s.Trans(2)
 					m := cfg.mk()
